@@ -327,6 +327,10 @@ r_buf_rpos_check(r_buf_p r_buf, r_buf_rpos_p rpos, size_t *drop_size_ret) {
 			drop_size = (r_buf->size + r_buf_iovec_calc_size(&r_buf->iov[rpos->iov_index],
 			    (1 + r_buf->iov_index - rpos->iov_index)));
 		}
+		/* Resync to oldest data of current round. */
+		rpos->iov_off = 0;
+		rpos->iov_index = 0;
+		rpos->round_num = r_buf->round_num;
 		if (NULL != drop_size_ret) {
 			(*drop_size_ret) = drop_size;
 		}
